@@ -26,11 +26,12 @@ Record gnode := mkGNode {
   gn_parents : list (nat * list N);                  (* parent index, objects the dependency is based on *)
   gn_children : list (nat * list N);
   gn_bridged : list nat;
-  gn_reg : N                (* identity of the shared visit registers *)
+  gn_reg : N;               (* identity of the shared visit registers *)
+  gn_excl : list N          (* workers whose restrictions exclude one of this node's vm variants *)
 }.
 
 Definition pgraph := list gnode.
-Definition dummy : gnode := mkGNode 0 0 0 None true false None [] [] [] [] [] [] [] 0.
+Definition dummy : gnode := mkGNode 0 0 0 None true false None [] [] [] [] [] [] [] 0 [].
 Definition gnd (g : pgraph) (i : nat) : gnode := nth i g dummy.
 Definition idxs (g : pgraph) : list nat := seq 0 (length g).
 
@@ -129,13 +130,13 @@ Definition wf_graph (g : pgraph) (r : list nat) : bool :=
   ranks_ok g r && one_root g && edge_sym g && nodup_ids g && producers_ok g && nets_ok g && clones_ok g.
 
 (* ---- C09: per-worker copies ---- *)
-(* bridging is symmetric, links nodes of equal worker-invariant form of different workers, and the
-   linked nodes share their visit registers *)
+(* bridging is symmetric, links nodes of equal worker-invariant form (of other workers, and of the
+   same worker when one test is selected through two test sets), and the linked nodes share their
+   visit registers *)
 Definition bridges_ok (g : pgraph) : bool :=
   forallb (fun i => let n := gnd g i in
      forallb (fun j => (j <? length g) && negb (Nat.eqb i j) && memn i (gn_bridged (gnd g j)) &&
                        N.eqb (gn_form (gnd g j)) (gn_form n) &&
-                       negb (opt_eqN (gn_worker (gnd g j)) (gn_worker n)) &&
                        N.eqb (gn_reg (gnd g j)) (gn_reg n)) (gn_bridged n)) (idxs g).
 (* every two composite nodes of equal form and different workers are bridged *)
 Definition bridges_complete (g : pgraph) : bool :=
@@ -144,21 +145,23 @@ Definition bridges_complete (g : pgraph) : bool :=
      negb (N.eqb (gn_form (gnd g i)) (gn_form (gnd g j))) ||
      opt_eqN (gn_worker (gnd g i)) (gn_worker (gnd g j)) || memn j (gn_bridged (gnd g i))) (idxs g)) (idxs g).
 
-(* the copy of worker w2 mirrors the copy of worker w1: same forms, and every dependency of a node has
-   its mirror image between the mirror nodes *)
+(* the copy of worker w2 mirrors the copy of worker w1: every node of w1 has a mirror node for w2 - unless w2's
+   restrictions exclude one of its vm variants - and every dependency of a mirrored node has its mirror image between
+   the mirror nodes (a parent that w2 excludes cannot have a mirrored child) *)
 Definition worker_nodes (g : pgraph) (w : N) : list nat :=
   filter (fun i => opt_eqN (gn_worker (gnd g i)) (Some w)) (idxs g).
 Definition mirror (g : pgraph) (w2 : N) (i : nat) : option nat :=
   find (fun j => opt_eqN (gn_worker (gnd g j)) (Some w2)) (gn_bridged (gnd g i)).
-Definition copies_equiv (g : pgraph) (w1 w2 : N) : bool :=
-  forallb (fun i =>
-     match mirror g w2 i with
-     | None => false
-     | Some j =>
-         forallb (fun e => gn_root (gnd g (fst e)) ||
-                           match mirror g w2 (fst e) with
-                           | Some pj => memn pj (map fst (gn_parents (gnd g j)))
-                           | None => false
-                           end) (gn_parents (gnd g i)) &&
-         Nat.eqb (length (gn_parents (gnd g i))) (length (gn_parents (gnd g j)))
-     end) (worker_nodes g w1).
+Definition node_mirrored (g : pgraph) (w2 : N) (i : nat) : bool :=
+  match mirror g w2 i with
+  | None => memN w2 (gn_excl (gnd g i))
+  | Some j =>
+      negb (memN w2 (gn_excl (gnd g i))) &&
+      forallb (fun e => gn_root (gnd g (fst e)) ||
+                        match mirror g w2 (fst e) with
+                        | Some pj => memn pj (map fst (gn_parents (gnd g j)))
+                        | None => false
+                        end) (gn_parents (gnd g i)) &&
+      Nat.eqb (length (gn_parents (gnd g i))) (length (gn_parents (gnd g j)))
+  end.
+Definition copies_equiv (g : pgraph) (w1 w2 : N) : bool := forallb (node_mirrored g w2) (worker_nodes g w1).
